@@ -1,6 +1,6 @@
 (** C03 -- every frame is attributed to exactly the address it encodes; rows are isolated.
-    (address recovery = AA field or AP xor CRC-24: see the CRC theorems below once integrated) *)
-From SQ Require Import Base Table TableProofs.
+     *)
+From SQ Require Import Base Frame Table TableProofs CrcSpec TotalPipeline FrameProofs.
 Local Open Scope N_scope.
 
 (** an applied line creates/keeps the row of its address and can modify that row only: every other
@@ -41,3 +41,16 @@ Proof.
 Qed.
 Check C03_zero_address_dropped : forall m df a, get_icao m df = Ok (Some a) -> a <> 0.
 Print Assumptions C03_zero_address_dropped.
+
+(** address recovery: the AA field (bits 9-32) for DF11/17/18 and every non-AP format, and for
+    DF0/4/5/16/20/21 the last 24 bits XOR the CRC-24 (polynomial long division by 0x1FFF409,
+    Spec/CrcSpec.v) of all preceding bits -- for ALL payloads and addresses *)
+Theorem C03_address : forall m df, frame_ok m -> (df < 16 <-> List.length m = 14%nat) ->
+  get_icao m df = Ok (nonzero (Some (addr_spec m df))).
+Proof. exact get_icao_spec. Qed.
+Check C03_address : forall m df, frame_ok m -> (df < 16 <-> List.length m = 14%nat) ->
+  get_icao m df = Ok (nonzero (Some (addr_spec m df))).
+Print Assumptions C03_address.
+
+Example C03_example : get_icao [10;0;0;0;1;8;3;8;3;0;0;0;0;0;0;0;0;0;0;0;0;0;7;10;13;10;5;9] 20 = Ok (Some 7453696).
+Proof. vm_compute. reflexivity. Qed.
